@@ -142,6 +142,9 @@ def build_program(shape: str, pattern: str, deps: tuple, extras: str, pos: str =
                 nd["gen_start"] = True
             if extras == "addc":
                 steps.append(("addc",))
+            if extras == "subctx" and phase == "start" and (p, "prepare") in present:
+                # in a context the component opens for itself, what its own prepare() registered is visible
+                steps.append(("subget", "RA", resname(p, "prepare"), f"{p}:start<-{p}:prepare"))
             nd[phase] = steps
     return {"shape": shape, "pattern": pattern, "deps": [list(d) for d in deps], "extras": extras, "pos": pos, "pub": pub, "tree": spec}
 
@@ -172,6 +175,21 @@ def build_twofail(shape: str, phase: str, parent_has_start: bool) -> dict | None
             c["start"] = [("add", "RA", resname(cp, "start"), f"{cp}:start")]
         failing.append(cp)
     return {"shape": shape, "twofail": phase, "failing": failing, "tree": spec, "pattern": "twofail", "deps": [], "extras": "plain", "pos": "before", "pub": "res"}
+
+
+def build_alias(variant: int) -> dict:
+    """r(k/n(g), w): the kind/name component publishes a default-named resource in prepare() (stays "default") and one in start()
+    (appears as "n"); its child and its sibling look both up."""
+    kn_prepare = [("add", "RA", "default", "kn:prepare"), ("gate", "g")] if variant & 1 else [("gate", "g"), ("add", "RA", "default", "kn:prepare")]
+    kn = {"alias": "k/n", "children": [{"alias": "g", "children": [], "prepare": None,
+                                        "start": [("get", "RA", "default", "nowait", False, "g:start<-kn:prepare")]}],
+          "prepare": kn_prepare, "start": [("gate", "g"), ("add", "RA", "default", "kn:start")]}
+    w = {"alias": "w", "children": [],
+         "prepare": [("get", "RA", "default", "shortcut" if variant & 2 else "inject", False, "w:prepare<-kn:prepare")],
+         "start": [("get", "RA", "n", "method", False, "w:start<-kn:start")]}
+    kids = [kn, w] if variant & 4 else [w, kn]
+    spec = {"alias": "", "children": kids, "prepare": None, "start": None}
+    return {"shape": "r(k/n(g),w)", "alias_prog": variant, "tree": spec, "pattern": "alias", "deps": [], "extras": "plain", "pos": "before", "pub": "res"}
 
 
 def candidate_deps(shape: str) -> list[tuple]:
@@ -231,7 +249,7 @@ class C05(E1Check):
                     step = 1 if tier == "thorough" else max(1, len(pairs) // 25)
                     depsets += [tuple(p) for p in pairs[::step]]
                 for deps in depsets:
-                    for extras in (("plain", "tdres", "svc", "gen", "addc") if not deps else ("plain",)):
+                    for extras in (("plain", "tdres", "svc", "gen", "addc", "subctx") if not deps else ("plain",)):
                         for pos in (("before", "after", "opt") if deps else ("before",)):
                             for pub in (("res", "sync", "async", "union", "falsy") if len(deps) == 1 else ("res",)):
                                 if pattern == "inherited" and (pub != "res" or pos != "before"):
@@ -250,6 +268,7 @@ class C05(E1Check):
                     p = build_twofail(shape, phase, phs)
                     if p is not None:
                         progs.append(p)
+        progs += [build_alias(v) for v in range(8)]
         return progs
 
     def bound(self, tier: str, program: Any) -> int:
@@ -309,6 +328,21 @@ class C05(E1Check):
             for f in failing:
                 if program["twofail"] == "prepare" and ("phase+", f, "start") in idx:
                     fail("start-order", f"start() of {f!r} was called although its prepare() raised")
+            return
+        if "alias_prog" in program:
+            if "exc" in st:
+                fail("start-failed", f"start_component raised {st['exc']!r}")
+                return
+            exp_vis = {"default": "kn:prepare", "n": "kn:start"}
+            if st.get("visible") != exp_vis:
+                fail("ownership", f"resources visible in the surrounding context {st.get('visible')}, expected {exp_vis}")
+            gets = {ev[1]: ev[2] for ev in tr if ev[0] == "get-"}
+            for tag in ("g:start<-kn:prepare", "w:prepare<-kn:prepare", "w:start<-kn:start"):
+                want = tag.split("<-")[1]
+                if gets.get(tag) != want:
+                    fail("dependency", f"{tag}: the lookup returned {gets.get(tag)!r}, expected {want!r}")
+            if not any(ev[0] == "returned" and ev[1] is True for ev in tr):
+                fail("return", "start_component did not return the root instance")
             return
         for ev in tr:
             if ev[0] == "addc-accepted":
